@@ -59,6 +59,13 @@ def _install_shims():
     # strings that reach re.sub in this project are concrete per path: realise and call the real one.
     for fn in (re.Pattern.sub, re.Pattern.subn):
         core._PATCH_REGISTRATIONS[fn] = core.with_realized_args(fn)
+    # crosshair skips functools.lru_cache altogether (calls __wrapped__): memoisation in the code under test --
+    # a value-keyed cache that confuses (1,) with (True,), a cache whose entries the caller mutates -- would be
+    # invisible to the engine.  Keep the real cache; its arguments are realised first (they are concrete per path
+    # everywhere in this project except a mutant's own use of k, which is then pinned on that path).
+    from functools import _lru_cache_wrapper
+
+    core._PATCH_REGISTRATIONS[_lru_cache_wrapper.__call__] = core.with_realized_args(_lru_cache_wrapper.__call__)
 
 
 def _solver_stats():
@@ -278,7 +285,9 @@ def explore(
         _preload(modname)
         tasks.sort(key=lambda t: -sum(v for v in t[2].values() if isinstance(v, int) and not isinstance(v, bool)))
         ctx = mp.get_context("fork")
-        with ctx.Pool(min(procs, len(tasks))) as pool:
+        # one fresh (forked) process per shard: whatever the code under test remembers between calls (module-level
+        # caches, memoised results) must not leak from one shard's paths into another's
+        with ctx.Pool(min(procs, len(tasks)), maxtasksperchild=1) as pool:
             it = pool.imap_unordered(_worker, tasks, chunksize=1)
             for r in it:
                 results.append(r)
